@@ -144,6 +144,8 @@ def run(F, chk):
     check_convert(F, W3)
     W5 = chk.rule('W5', 'writer chain: a local copy of a message/header field is never modified before it is written (fields are exported verbatim)')
     check_verbatim_copies(F, W5)
+    W6 = chk.rule('W6', 'readers: the 16-bit length field of the standard header is widened before anything is added to it (16 + len can exceed u16 for the largest messages the writer emits)')
+    check_len_widened(F, W6)
 
 
 def check_endian_bit(F, W1):
@@ -385,3 +387,58 @@ def check_verbatim_copies(F, W5):
             else:
                 W5.ok(sample={'writer': name, 'field_copy': fl[-1]['n'], 'modified': False})
     W5.floor('plain copies of message/header fields in the writer chain', n, 3)
+
+
+# ---------------------------------------------------------------------------------------------
+# W6: no 16-bit addition on the length field
+
+def check_len_widened(F, W6):
+    """"re-reading the written bytes consumes exactly them": the writer emits messages up to a length field of 65535; framing
+    adds 16 (storage) or 4 (serial) bytes on top.  A reader that computes `framing + len` (or len + anything) in u16 wraps or
+    panics exactly for the largest legal messages.  Over all non-test bodies of adlt::dlt: an Add/Mul whose operands are u16
+    and whose data provenance contains DltStandardHeader.len is a violation; subtractions from len (payload size) are the
+    business of C03.  Expected count today: zero additions on the field; the uses of the field are counted as the anchor."""
+    from prov import Prov
+    bodies = [b for b in F.order if b.crate == 'lib' and (b.path.startswith('adlt::dlt::') or b.path.startswith('<adlt::dlt::')) and '::tests::' not in b.path]
+    n_reads = 0
+    bad = []
+    for b in bodies:
+        cfg = pr = None
+        for blk in b.blocks:
+            if blk.cleanup:
+                continue
+            for s in blk.stmts:
+                if s.k != 'assign':
+                    continue
+                for o in s.rv_operands():
+                    if o.place is not None and any(e['k'] == 'f' and e['n'] == 'len' and e.get('o') == 'adlt::dlt::DltStandardHeader' for e in o.place.p):
+                        n_reads += 1
+                rp = s.rv_place()
+                if rp is not None and any(e['k'] == 'f' and e['n'] == 'len' and e.get('o') == 'adlt::dlt::DltStandardHeader' for e in rp.p):
+                    n_reads += 1
+                if s.rv['k'] != 'bin' or not re.match(r'(Add|Mul|Shl)', s.rv['op']):
+                    continue
+                ops = [Operand(s.rv['a']), Operand(s.rv['b'])]
+                if not any((o.ty or '') == 'u16' for o in ops):
+                    continue
+                if cfg is None:
+                    cfg = CFG(b)
+                    pr = Prov(cfg)
+                toks = set()
+                for o in ops:
+                    toks |= pr.operand(o, at=blk.i)
+                if ('fld', 'adlt::dlt::DltStandardHeader', 'len') in toks:
+                    bad.append((b, s))
+    W6.sites += n_reads + len(bad)
+    W6.floor('reads of DltStandardHeader.len in adlt::dlt', n_reads, 3)
+    if bad:
+        seen = set()
+        for (b, s) in bad:
+            if b.path in seen:
+                continue
+            seen.add(b.path)
+            W6.fn(b.path)
+            W6.violation(('len-arithmetic-in-u16', b.path), '%s adds to / scales the 16-bit length field of the standard header in u16 at %s: for messages near the maximum length (which the writer emits) the sum wraps or panics, '
+                         're-reading an exported message no longer consumes exactly the bytes written' % (b.path, b.loc(s.sp)), where=b.loc(s.sp))
+    else:
+        W6.ok(sample={'reads_of_the_length_field': n_reads, 'u16_additions_on_it': 0})
